@@ -53,6 +53,11 @@ class VertexList:
 
         raise VertexNotFoundError(f"Vertex not found: {position}")
 
+    @staticmethod
+    def merge_projections(vertex: Vertex, point: Point) -> None:
+        """A re-used vertex must keep projections of all points that share it, not only the first one's"""
+        vertex.projected_to = vertex.projected_to + [g for g in point.projected_to if g not in vertex.projected_to]
+
     def add(self, point: Point, slave_patches: Optional[List[str]] = None) -> Vertex:
         """Re-use existing vertices when there's already one at the position;
         unless that vertex belongs to a slave of a face-merged pair -
@@ -75,6 +80,8 @@ class VertexList:
                         # a point that belongs to a slave patch
                         # has been found but we need one for a 'master' patch
                         raise VertexNotFoundError
+
+                self.merge_projections(vertex, point)
             except VertexNotFoundError:
                 vertex = Vertex.from_point(point, len(self.vertices))
                 self.vertices.append(vertex)
@@ -84,6 +91,7 @@ class VertexList:
         # scenario 3: slave_patches is not None
         try:
             vertex = self.find_duplicated(point.position, slave_patches)
+            self.merge_projections(vertex, point)
         except VertexNotFoundError:
             vertex = Vertex.from_point(point, len(self.vertices))
             self.vertices.append(vertex)
